@@ -12,8 +12,9 @@ from .. import alphabet as A
 from .. import findings, par, sched
 
 RULE = (
-    "sequential: all histories up to the length bound over {direct get_relation_name(prefix) with two prefixes, unnamed "
-    "LeafRelation, make_leaf without a name, materialized() without a name} x engines {e1, e2 (iteration), s (SQL)}; "
+    "sequential: all histories up to the length bound over {direct get_relation_name(prefix) with three prefixes incl. "
+    "a 70-character one, unnamed LeafRelation, make_leaf without a name, materialized() without a name (equal targets, "
+    "kept alive), each with a short and a 70-character prefix} x engines {e1, e2 (iteration), s (SQL)}; "
     "concurrent: 2 threads x 2 requests and 3 threads x 1 request on one engine, leaf construction vs direct request, "
     "two engines, materialized() vs direct - every interleaving at CPython bytecode granularity inside the library with "
     "at most 2 preemptions (CHESS-style iterative bounding: 0, 1, 2), executions always run to completion; uuid.uuid4 "
@@ -68,6 +69,11 @@ def _request(kind, engine, prefix, out, fresh):
         raise AssertionError(kind)
     draws = fresh.draws.get(tid, [])[n_before:]
     out.append({"prefix": prefix, "name": name, "draws": list(draws), "kind": kind})
+    _KEEP_ALIVE.append(locals().get("rel") or locals().get("m"))  # targets stay alive for the whole history
+
+
+_KEEP_ALIVE: list = []
+LONG = "p" * 70  # longer than common database identifier limits
 
 
 def _empty_payload(engine):
@@ -95,14 +101,14 @@ def judge(requests):
 # ----------------------------------------------------------------------------- sequential histories
 KINDS = ("direct", "leaf", "make_leaf", "materialized")
 ENGINES = ("e1", "e2", "s")
-PREFIXES = ("p", "p_0000")
+PREFIXES = ("p", "p_0000", LONG)
 
 
 def seq_actions():
     acts = []
     for k in KINDS:
         for e in ENGINES:
-            for p in PREFIXES if k == "direct" else ("p",):
+            for p in PREFIXES if k == "direct" else ("p", LONG):
                 acts.append((k, e, p))
     return acts
 
@@ -121,6 +127,7 @@ def _seq_work(prefixes):
                 uuid.uuid4 = fresh
                 engines = {"e1": iteration.Engine(name="e1"), "e2": iteration.Engine(name="e2"), "s": sql.Engine(name="s")}
                 out = []
+                _KEEP_ALIVE.clear()
                 for k, e, p in hist:
                     _request(k, engines[e], p, out, fresh)
                 n += 1
